@@ -7,7 +7,12 @@ SMT_FLAGS = ["--cvc5", "--slice-formula", "--external-smt2-solver", os.path.norm
 
 # name, adapter, block, state bytes, ctx bytes (for unwind), alignment offsets worth distinguishing, defs
 ALGS = {
-    "md5":    dict(h="common/hash/alg_md5.h", blk=64, lenb=8, offs=[0, 1, 2], defs={}),
+    "md5":    dict(h="common/hash/alg_md5.h", blk=64, lenb=8, offs=[0, 1, 2], defs={}, upd="md5_update.0"),
+    "sha1":   dict(h="common/hash/alg_sha1.h", blk=64, lenb=8, offs=[0, 1], defs={}),
+    "sha224": dict(h="common/hash/alg_sha2.h", blk=64, lenb=8, offs=[0], defs={"BITS": 224}),
+    "sha256": dict(h="common/hash/alg_sha2.h", blk=64, lenb=8, offs=[0, 1], defs={"BITS": 256}),
+    "sha384": dict(h="common/hash/alg_sha2.h", blk=128, lenb=16, offs=[0], defs={"BITS": 384}),
+    "sha512": dict(h="common/hash/alg_sha2.h", blk=128, lenb=16, offs=[0, 1], defs={"BITS": 512}),
 }
 
 META = {
